@@ -980,19 +980,25 @@ class MatlabWrapper(CheckMixin, FormatMixin):
                               return
                             end
                             """), prefix='')
+                # Determine format of return and varargout statements
+                return_type_formatted = self._format_return_type(
+                    static_overload.return_type,
+                    include_namespace=True,
+                    separator=".")
+                varargout = self._format_varargout(
+                    static_overload.return_type, return_type_formatted)
+
                 method_text += textwrap.indent(textwrap.dedent('''\
                       % {name_caps} usage: {name_upper_case}({args}) : returns {return_type}
                       % Doxygen can be found at https://gtsam.org/doxygen/
-                      {check_statement}{spacing}varargout{{1}} = {wrapper}({id}, varargin{{:}});{end_statement}
+                      {check_statement}{spacing}{varargout}{wrapper}({id}, varargin{{:}});{end_statement}
                       ''').format(
                     name=''.join(format_name),
                     name_caps=static_overload.name.upper(),
                     name_upper_case=static_overload.name,
                     args=self._wrap_args(static_overload.args),
-                    return_type=self._format_return_type(
-                        static_overload.return_type,
-                        include_namespace=True,
-                        separator="."),
+                    return_type=return_type_formatted,
+                    varargout=varargout,
                     length=len(static_overload.args.list()),
                     var_args_list=self._wrap_variable_arguments(
                         static_overload.args),
